@@ -37,8 +37,20 @@ class Machine(object):
         self.model, self.cls, self.side = model, cls, side
         self.align_noop = align_noop
         self.max_depth = max_depth
-        self.effects = lambda call: is_self_call(call) and self.cls.find_method(call.func.attr) is not None and \
-            call.func.attr.startswith(('append_', 'read_', 'align', 'skip_'))
+        self._preds = {}
+
+    def pred(self, stream):
+        """effects of a function whose stream object is the name `stream` ('self' inside the Encoder/Decoder class)"""
+        if stream not in self._preds:
+            def eff(node, stream=stream):
+                if isinstance(node, ast.Call):
+                    return isinstance(node.func, ast.Attribute) and isinstance(node.func.value, ast.Name) and node.func.value.id == stream \
+                        and self.cls.find_method(node.func.attr) is not None and (stream != 'self' or node.func.attr.startswith(('append_', 'read_', 'align', 'skip_', 'peek_', 'clear_', 'set_')))
+                if isinstance(node, ast.Attribute):
+                    return isinstance(node.value, ast.Name) and node.value.id == stream and node.attr == 'number_of_bits' and stream != 'self'
+                return False
+            self._preds[stream] = eff
+        return self._preds[stream]
 
     # ---- name resolution for the evaluator: module-level literal constants
     def env_with_consts(self, env, f):
@@ -72,16 +84,22 @@ class Machine(object):
         return E(env)
 
     def run(self, method, args, bits='', pos=0, depth=0):
-        """Evaluate self.<method>(*args).
+        """Evaluate <stream>.<method>(*args) of the Encoder/Decoder class.
         encoder side: -> (bit string after the call, returned value)
         decoder side: -> (returned value, position after the call)"""
-        if depth > self.max_depth:
-            raise Undecided('call depth')
         r = self.cls.find_method(method)
         if r is None:
             raise Undecided('no method %s' % method)
-        f = r[1]
-        ps = sem.paths(f, positional=True, effects=self.effects)
+        return self.run_fn(r[1], 'self', args, {}, bits, pos, depth)
+
+    def run_fn(self, f, stream, args, config, bits='', pos=0, depth=0):
+        """Evaluate function f whose stream object is the parameter / name `stream`.  args: values of the positional
+        parameters after self (the stream parameter's slot is ignored); config: bindings by source text for what the function
+        reads from its own object (e.g. {'self.data_to_value[ARG0]': 5})."""
+        method = f.name
+        if depth > self.max_depth:
+            raise Undecided('call depth')
+        ps = sem.paths(f, positional=True, effects=self.pred(stream))
         if ps is None:
             raise Undecided('%s: too many paths' % method)
         nparams = len(f.args.args) - 1
@@ -92,10 +110,10 @@ class Machine(object):
             if p.outcome[0] in ('break', 'continue'):
                 continue
             env = {'ARG%d' % i: a for i, a in enumerate(args)}
+            env.update(config)
             env = self.env_with_consts(env, f)
             b, q = bits, pos
             try:
-                ok = True
                 if sem.consistent(p, env, evalexpr.ev) is False:
                     continue
                 for ev_ in p.events:
@@ -105,16 +123,19 @@ class Machine(object):
                         raise Undecided('%s: loop' % method)
                     if ev_[0] != 'effect':
                         continue
-                    sym, call, sx = ev_[1], ev_[2], ev_[3]
-                    name = call.func.attr
-                    try:
-                        cargs = [evalexpr.ev(a, env) for a in sx.args]
-                    except (evalexpr.Unsupported, KeyError, TypeError) as e:
-                        raise Undecided('%s: argument of %s not evaluable (%s)' % (method, name, e))
-                    if self.side == 'enc':
-                        b, val = self.enc_effect(name, cargs, b, depth)
+                    sym, node, sx = ev_[1], ev_[2], ev_[3]
+                    if isinstance(node, ast.Attribute):
+                        val = len(b) if self.side == 'enc' else len(b) - q
                     else:
-                        val, q = self.dec_effect(name, cargs, b, q, depth)
+                        name = node.func.attr
+                        try:
+                            cargs = [evalexpr.ev(a, env) for a in sx.args]
+                        except (evalexpr.Unsupported, KeyError, TypeError) as e:
+                            raise Undecided('%s: argument of %s not evaluable (%s)' % (method, name, e))
+                        if self.side == 'enc':
+                            b, val = self.enc_effect(name, cargs, b, depth)
+                        else:
+                            val, q, b = self.dec_effect(name, cargs, b, q, depth)
                     dict.__setitem__(env, sym, val)
                     if sem.consistent(p, env, evalexpr.ev) is False:
                         raise _PathDead()
@@ -172,32 +193,52 @@ class Machine(object):
             if name == 'align' and self.align_noop:
                 return bits, None
             return bits + '0' * (-len(bits) % 8), None
+        if name == 'set_bit':
+            i = a[0]
+            if not isinstance(i, int) or not 0 <= i < len(bits):
+                raise Undecided('set_bit position')
+            return bits[:i] + '1' + bits[i + 1:], None
+        if name in BASE_ENC:
+            raise Undecided('base operation %s' % name)
         return self.run(name, a, bits, 0, depth + 1)
 
     def dec_effect(self, name, a, bits, pos, depth):
         def take(n):
             if pos + n > len(bits):
                 raise _PathDead()
-            return (int(bits[pos:pos + n], 2) if n else 0), pos + n
+            return (int(bits[pos:pos + n], 2) if n else 0), pos + n, bits
         if name == 'read_non_negative_binary_integer':
             if not isinstance(a[0], int) or a[0] < 0:
                 raise Undecided('field width')
             return take(a[0])
         if name == 'read_bit':
             return take(1)
-        if name == 'read_byte':
+        if name == 'read_byte' and self.cls.find_method('read_byte') is None:
             return take(8)
         if name in ('read_bytes', 'read_bits'):
             n = a[0] * (8 if name == 'read_bytes' else 1)
-            v, q = take(n)
-            return v.to_bytes((n + 7) // 8, 'big') if n % 8 == 0 else v, q
+            v, q, _b = take(n)
+            return (v.to_bytes((n + 7) // 8, 'big') if n % 8 == 0 else v), q, bits
         if name == 'skip_bits':
-            return None, take(a[0])[1]
+            return None, take(a[0])[1], bits
         if name in ('align', 'align_always'):
             if name == 'align' and self.align_noop:
-                return None, pos
-            return None, pos + (-pos % 8)
-        return self.run(name, a, bits, pos, depth + 1)
+                return None, pos, bits
+            return None, pos + (-pos % 8), bits
+        if name == 'peek_bit':
+            if pos >= len(bits):
+                raise _PathDead()
+            return int(bits[pos]), pos, bits
+        if name == 'clear_bit':
+            if pos >= len(bits):
+                raise _PathDead()
+            return None, pos, bits[:pos] + '0' + bits[pos + 1:]
+        r = self.cls.find_method(name)
+        if r is None:
+            raise Undecided('no method %s' % name)
+        # derived primitive: evaluated on the (possibly modified) bit string
+        ret, q = self.run_fn(r[1], 'self', a, {}, bits, pos, depth + 1)
+        return ret, q, bits
 
 
 class _PathDead(Exception):
